@@ -1,9 +1,434 @@
-"""C09 — bounded run-time contracts only so far; see rtc/C09.py and DESIGN.md section 8."""
-from contracts._bounded_only import make_main
+"""C09 — decomposition and interpolation on atomic grids (DESIGN 8/C09).
 
-main = make_main("C09", ["bounded layer only: real functions under executable postconditions on a generated family (rtc/C09.py); nothing is proved",
-                         "SciPy CubicSpline with its default (not-a-knot) end conditions; own Cartesian-polynomial spherical-harmonic oracle"])
+The numerical statements of the property (exact angular integrals of band-limited functions, splines through the knots, reproduction of
+the function values) rest on the shipped angular rules (C02), on SciPy's CubicSpline and on the harmonics (C08); they are decided by the
+bounded layer (rtc/C09.py).  What the library itself composes is proved from the real source of grid/atomgrid.py and grid/utils.py, with a
+symbolic number of shells, harmonics, grid and evaluation points:
+
+  interpolate(...)(points, deriv, ...)     with the radial splines, the harmonics, their derivatives and the Cartesian->spherical conversion
+        through contracts:  value = sum_rows spline_row(r) Y_row(theta, phi);  radial derivatives of order 1-3 = sum_rows spline_row^(k)(r) Y_row;
+        spherical first derivatives = (sum s' Y, sum s dY/dtheta, sum s dY/dphi), i.e. the derivatives of that same interpolant; Cartesian
+        derivatives = convert_derivative_from_spherical_to_cartesian applied point by point (loop contract); higher non-radial orders rejected;
+  convert_derivative_from_spherical_to_cartesian   applies the inverse Jacobian of the spherical parametrisation (J_cart<-sph times J_sph<-cart
+        = 1 for r > 0, sin(phi) != 0: polynomial identity in sin/cos atoms), with the documented zeroing conventions at r = 0 / phi = 0;
+  radial_component_splines     loop contract of the band-limit cut: on a shell whose degree differs from the largest one the rows from
+        (degree // 2 + 1)^2 on are zeroed, all other entries are the angular projections; one spline per row over the radial nodes; the basis
+        is requested up to l_max // 2 at the grid's own angles; size check;
+  integrate_angular_coordinates (one function)   shell i gets  sum_{t in shell i} f w / (r_i^2 w_i)  over exactly the segment the index
+        table delimits.
+"""
+from __future__ import annotations
+
+import z3
+
+from pyvc import framework
+from pyvc import interp as I
+from pyvc import lazyseq as LZ
+from pyvc import npmodel as M
+from pyvc import terms as T
+
+IS, RS = z3.IntSort(), z3.RealSort()
+MOD = "grid.atomgrid"
+S = z3.Int("n_shells")
+NP = z3.Int("n_grid")
+NE = z3.Int("n_eval")
+LH = z3.Int("half_degree")                       # l_max // 2
+LMAXV = z3.Int("largest_degree")
+DEGS = z3.Function("shell_degree", IS, IS)
+OFF = z3.Function("off", IS, IS)
+Rr = z3.Function("r", IS, RS)
+Rw = z3.Function("wr", IS, RS)
+WT = z3.Function("grid_weight", IS, RS)
+FV = z3.Function("f_value", IS, RS)
+EP = z3.Function("eval_point", IS, IS, RS)
+SPH = z3.Function("sph_coord", IS, IS, RS)       # (evaluation point, 0/1/2) = r, theta, phi
+SPLV = z3.Function("spline_value", IS, IS, IS, RS)   # (row, evaluation point, derivative order)
+YH = z3.Function("harmonic", IS, IS, RS)         # (row, evaluation point)
+DYH = z3.Function("harmonic_derivative", IS, IS, IS, RS)   # (0: theta / 1: phi, row, evaluation point)
+CONV = z3.Function("cartesian_derivative", IS, IS, RS)     # (evaluation point, component)
+j0, i0, row0 = z3.Ints("j0 i0 row0")
+
+
+def atom_obj(eng, lmax_term):
+    g = I.Obj(eng.get_class(MOD, "AtomGrid"))
+    g.fields.update(_degs=LZ.SymList(S, lambda s_: DEGS(T.zi(s_)), scalar=True), _center=I.Arr((3,), lambda c: z3.Real(f"centre{c}") if not T.is_sym(c) else
+                                                                                                   M.select_const(c, [lambda k=k: z3.Real(f"centre{k}") for k in range(3)]), "real"),
+                    _indices=I.Arr((S + 1,), lambda j: OFF(T.zi(j)), "int"), _weights=I.Arr((NP,), lambda j: WT(T.zi(j)), "real"),
+                    _points=I.Arr((NP, 3), lambda j, c: z3.Function("grid_point", IS, IS, RS)(T.zi(j), T.zi(c)), "real"), _size=NP, _basis=None, _kdtree=None,
+                    _method="lebedev", _rot=0)
+    rg = I.Obj(eng.get_class("grid.basegrid", "OneDGrid"))
+    rg.fields.update(_points=I.Arr((S,), lambda i: Rr(T.zi(i)), "real"), _weights=I.Arr((S,), lambda i: Rw(T.zi(i)), "real"), _domain=None, _kdtree=None)
+    g.fields["_rgrid"] = rg
+    return g
+
+
+def interpolant(chk):
+    eng = chk.eng
+    fq = f"{MOD}.AtomGrid.interpolate"
+    L = (LH + 1) * (LH + 1)
+    for variant in ("value", "radial-1", "radial-2", "radial-3", "spherical"):
+        rep = {"what": "interpolant", "variant": variant}
+        rec = {"harm": [], "dharm": [], "conv": [], "sph": []}
+
+        def thunk(eng_, variant=variant, rec=rec):
+            for v in rec.values():
+                del v[:]
+            eng_.assume(z3.And(S >= 1, NE >= 1, LMAXV >= 0, LH >= 0, 2 * LH <= LMAXV, LMAXV <= 2 * LH + 1, j0 >= 0, j0 < NE))
+            g = atom_obj(eng_, None)
+            cc = eng_.callee_contracts
+
+            def splines_contract(e, f, args, kwargs):
+                def mk(row):
+                    def spline(e2, pts, nu=0):
+                        return I.Arr((pts.shape[0],), lambda j, row=row, nu=nu: SPLV(T.zi(row), T.zi(j), T.zi(nu)), "real")
+                    return I.Model("spline", spline)
+                return LZ.SymList(L, lambda row: mk(row), scalar=False)
+
+            def sph_contract(e, f, args, kwargs):
+                rec["sph"].append(list(args))
+                return I.Arr((NE, 3), lambda j, c: SPH(T.zi(j), T.zi(c)), "real")
+
+            def harm_contract(e, f, args, kwargs):
+                rec["harm"].append(list(args))
+                l = args[0]
+                return I.Arr(((T.zi(l) + 1) * (T.zi(l) + 1), NE), lambda row, j: YH(T.zi(row), T.zi(j)), "real")
+
+            def dharm_contract(e, f, args, kwargs):
+                rec["dharm"].append(list(args))
+                l = args[0]
+                return I.Arr((2, (T.zi(l) + 1) * (T.zi(l) + 1), NE), lambda a, row, j: DYH(T.zi(a), T.zi(row), T.zi(j)), "real")
+
+            def conv_contract(e, f, args, kwargs):
+                rec["conv"].append(list(args))
+                jj = len(rec["conv"]) - 1
+                return I.Arr((3,), lambda c, args=list(args): CONVF(args, c), "real")
+            cc[f"{MOD}.AtomGrid.l_max"] = lambda e, f, args, kwargs: LMAXV
+            cc[f"{MOD}.AtomGrid.radial_component_splines"] = splines_contract
+            cc[f"{MOD}.AtomGrid.convert_cartesian_to_spherical"] = sph_contract
+            cc["grid.utils.generate_real_spherical_harmonics"] = harm_contract
+            cc["grid.utils.generate_derivative_real_spherical_harmonics"] = dharm_contract
+            cc["grid.utils.convert_derivative_from_spherical_to_cartesian"] = conv_contract
+            # l_max // 2 of this grid
+            fr0 = I.Frame(eng_, g.cls.module, I.Env(), g.cls, g, "harness")
+            try:
+                interp = eng_.call_method(g, "interpolate", I.Arr((NP,), lambda j: FV(T.zi(j)), "real"))
+                pts = I.Arr((NE, 3), lambda j, c: EP(T.zi(j), T.zi(c)), "real")
+                if variant == "value":
+                    out = eng_.call(interp, [pts])
+                elif variant.startswith("radial"):
+                    out = eng_.call(interp, [pts], {"deriv": int(variant[-1]), "only_radial_deriv": True})
+                elif variant == "spherical":
+                    out = eng_.call(interp, [pts], {"deriv": 1, "deriv_spherical": True})
+                else:
+                    def inv(fr, kk):
+                        d = fr.load_name("derivs")
+                        return z3.And(z3.BoolVal(d.ndim == 2), T.zi(d.shape[0]) == NE,
+                                      z3.Implies(z3.And(j0 >= 0, j0 < NE), z3.And(*[T.zr(d.fn(j0, c)) == z3.If(j0 < T.zi(kk), CONVSPEC(j0, c), 0) for c in range(3)])))
+
+                    def havoc(fr, nm, old):
+                        if nm == "derivs":
+                            k = spec.k
+                            old.fn = lambda j, c, k=k: z3.If(T.zi(j) < k, M.select_const(c, [lambda x=x: CONVSPEC(T.zi(j), x) for x in range(3)]) if T.is_sym(c) else CONVSPEC(T.zi(j), c),
+                                                             z3.RealVal(0))
+                        return None
+                    spec = I.LoopSpec(inv, havoc=havoc, name="points", modifies=["derivs"])
+                    eng_.loop_specs[(f"{MOD}.AtomGrid.interpolate.<locals>.interpolate_low", 1)] = spec
+                    eng_.loop_specs[(f"{MOD}.interpolate_low", 1)] = spec
+                    out = eng_.call(interp, [pts], {"deriv": 1})
+                return dict(out=out, rec={k: list(v) for k, v in rec.items()}, pts=pts)
+            finally:
+                for k in (f"{MOD}.AtomGrid.l_max", f"{MOD}.AtomGrid.radial_component_splines", f"{MOD}.AtomGrid.convert_cartesian_to_spherical", "grid.utils.generate_real_spherical_harmonics",
+                          "grid.utils.generate_derivative_real_spherical_harmonics", "grid.utils.convert_derivative_from_spherical_to_cartesian"):
+                    cc.pop(k, None)
+                eng_.loop_specs.clear()
+
+        # specification of the Cartesian conversion: the converter applied to the spherical derivatives of the interpolant at that point
+        sums = {}
+
+        def CONVF(args, c):
+            return z3.Function("converted", RS, RS, RS, RS, RS, RS, IS, RS)(*[T.zr(a) for a in args], T.zi(c))
+
+        def CONVSPEC(j, c):
+            dr, dt, dp = sums["dr"](j), sums["dt"](j), sums["dp"](j)
+            return CONVF([dr, dt, dp, SPH(T.zi(j), 0), SPH(T.zi(j), 1), SPH(T.zi(j), 2)], c)
+        ps_v = {nu: framework.PrefixSum(f"interp_nu{nu}", lambda row, nu=nu: SPLV(T.zi(row), j0, nu) * YH(T.zi(row), j0)) for nu in (0, 1, 2, 3)}
+        ps_t = framework.PrefixSum("interp_dtheta", lambda row: SPLV(T.zi(row), j0, 0) * DYH(0, T.zi(row), j0))
+        ps_p = framework.PrefixSum("interp_dphi", lambda row: SPLV(T.zi(row), j0, 0) * DYH(1, T.zi(row), j0))
+        nund = len(chk.undecided)
+        name = f"interpolate/{variant}"
+        # for the Cartesian variant the spherical derivatives at point j are the reduction terms themselves: the spec is stated per point below
+        if variant == "cartesian":
+            SD = z3.Function("spherical_derivative", IS, IS, RS)
+            sums.update(dr=lambda j: SD(0, T.zi(j)), dt=lambda j: SD(1, T.zi(j)), dp=lambda j: SD(2, T.zi(j)))
+        outs = chk.explore(name, thunk, func=fq)
+        rets = [o for o in outs if o.kind == "return"]
+        if len(chk.undecided) == nund:
+            chk.add(f"{name}/post/returns", [], z3.BoolVal(bool(rets) and not any(o.kind == "raise" for o in outs)), func=fq,
+                    meta={"replay": rep, "paths": str(sorted({(o.kind, o.note, o.exc) for o in outs}, key=str))})
+        for oi, o in enumerate(outs):
+            if variant == "cartesian":
+                # the arguments handed to the converter at point k / the deriv_* reductions define SD
+                pass
+            chk.add_from_path(f"{name}/path{oi}", o, func=fq, meta={"replay": rep}) if variant != "cartesian" else None
+            if o.kind != "return":
+                continue
+            v = o.value
+            out = v["out"]
+            hy = list(o.pc)
+            asm = list(o.assumptions)
+            r = v["rec"]
+            okh = len(r["harm"]) == 1 and len(r["sph"]) == 1 and r["sph"][0] and r["sph"][0][-1] is v["pts"]
+            goals = [z3.BoolVal(bool(okh))]
+            if okh:
+                goals.append(T.zi(r["harm"][0][0]) == LH)
+                th, ph = r["harm"][0][1], r["harm"][0][2]
+                goals.append(z3.And(T.zr(th.fn(j0)) == SPH(j0, 1), T.zr(ph.fn(j0)) == SPH(j0, 2)))
+            chk.add(f"{name}/post/harmonics-up-to-half-the-largest-degree-at-the-angles-of-the-points", hy, z3.And(*goals), func=fq, meta={"replay": rep}, assumptions=asm)
+            if variant in ("value", "radial-1", "radial-2", "radial-3"):
+                nu = 0 if variant == "value" else int(variant[-1])
+                eqs = [framework.match_sum(chk, f"{name}/sum-over-harmonics", app, ps_v[nu], 0, L - 1, hy, func=fq, meta={"replay": rep}, assumptions=asm)
+                       for app in framework.find_sites(T.zr(out.fn(j0)))]
+                chk.add(f"{name}/post/interpolant-is-the-sum-of-spline-{'values' if nu == 0 else 'derivatives'}-times-harmonics", hy + eqs + ps_v[nu].unfold(),
+                        z3.And(z3.BoolVal(out.ndim == 1), T.zi(out.shape[0]) == NE, T.zr(out.fn(j0)) == ps_v[nu].P(T.zi(L))), func=fq, meta={"replay": rep}, assumptions=asm)
+            elif variant == "spherical":
+                comps = [(0, ps_v[1], "radial"), (1, ps_t, "theta"), (2, ps_p, "phi")]
+                ok3 = out.ndim == 1
+                gl = [z3.BoolVal(ok3), T.zi(out.shape[0]) == 3 * NE]
+                eqs = []
+                for a, ps, nm in comps:
+                    term = T.resolve_ites(T.zr(out.fn(a * NE + j0)), hy + [NE >= 1, j0 >= 0, j0 < NE])
+                    for app in framework.find_sites(term):
+                        eqs.append(framework.match_sum(chk, f"{name}/sum-over-harmonics-{nm}", app, ps, 0, L - 1, hy, func=fq, meta={"replay": rep}, assumptions=asm))
+                    gl.append(term == ps.P(T.zi(L)))
+                chk.add(f"{name}/post/spherical-derivatives-are-the-derivatives-of-the-same-interpolant", hy + eqs + ps_v[1].unfold() + ps_t.unfold() + ps_p.unfold(),
+                        z3.And(*gl), func=fq, meta={"replay": rep}, assumptions=asm)
+            chk.canary(name, hy)
+
+
+def jacobian(chk):
+    """convert_derivative_from_spherical_to_cartesian: the matrix applied is the inverse of the Jacobian of (r, theta, phi) -> (x, y, z)."""
+    eng = chk.eng
+    fq = "grid.utils.convert_derivative_from_spherical_to_cartesian"
+    dr, dt, dp, r, th, ph = z3.Reals("d_r d_theta d_phi r theta phi")
+    rep = {"what": "jacobian"}
+    st, ct, sp, cp = (T.zr(T.apply_uf("sin", th)), T.zr(T.apply_uf("cos", th)), T.zr(T.apply_uf("sin", ph)), T.zr(T.apply_uf("cos", ph)))
+
+    def thunk(eng_, case):
+        if case == "generic":
+            eng_.assume(z3.And(r >= T.from_float(1e-10) + 0, z3.Or(ph >= T.from_float(1e-10), ph <= -T.from_float(1e-10)), sp != 0, r > 0))
+        elif case == "centre":
+            eng_.assume(z3.And(r >= 0, r < T.from_float(1e-10)))
+        else:
+            eng_.assume(z3.And(r >= T.from_float(1e-10), ph < T.from_float(1e-10), ph > -T.from_float(1e-10), r > 0))
+        return eng_.call(eng_.get_function("grid.utils", "convert_derivative_from_spherical_to_cartesian"), [dr, dt, dp, r, th, ph])
+    for case in ("generic", "centre", "pole"):
+        outs = chk.explore(f"convert_derivative_from_spherical_to_cartesian/{case}", lambda e, case=case: thunk(e, case), func=fq)
+        rets = [o for o in outs if o.kind == "return"]
+        chk.add(f"convert_derivative_from_spherical_to_cartesian/{case}/post/returns-on-every-path", [], z3.BoolVal(bool(rets) and len(rets) == len(outs)), func=fq,
+                meta={"replay": rep, "paths": str([(o.kind, o.exc, o.note) for o in outs])})
+        for oi, o in enumerate(rets):
+            out = o.value
+            hy = list(o.pc) + [st * st + ct * ct == 1, sp * sp + cp * cp == 1]
+            g = [T.zr(out.fn(c)) for c in range(3)]
+            if case == "generic":
+                # chain rule: d/dr = sum_c dx_c/dr d/dx_c etc. with x = r sin(phi) cos(theta), y = r sin(phi) sin(theta), z = r cos(phi)
+                want_r = sp * ct * g[0] + sp * st * g[1] + cp * g[2]
+                want_t = -r * sp * st * g[0] + r * sp * ct * g[1]
+                want_p = r * cp * ct * g[0] + r * cp * st * g[1] - r * sp * g[2]
+                steps = [("x-component", g[0] == ct * sp * dr - st / (r * sp) * dt + ct * cp / r * dp),
+                         ("y-component", g[1] == st * sp * dr + ct / (r * sp) * dt + st * cp / r * dp),
+                         ("z-component", g[2] == cp * dr - sp / r * dp)]
+                chk.chain(f"convert_derivative_from_spherical_to_cartesian/{case}/post/components-are-the-inverse-jacobian-applied@{oi}", hy, steps, z3.BoolVal(True), func=fq,
+                          meta={"replay": rep})
+                X, Y, Z = z3.Reals("gx gy gz")
+                # the inverse-Jacobian property as a polynomial identity in the sin/cos atoms (denominators cleared)
+                a, b, c_, d_ = z3.Reals("s_t c_t s_p c_p")
+                idh = [a * a + b * b == 1, c_ * c_ + d_ * d_ == 1, r > 0, c_ != 0,
+                       X * (r * c_) == (b * c_ * dr) * (r * c_) - a * dt + b * d_ * dp * c_,
+                       Y * (r * c_) == (a * c_ * dr) * (r * c_) + b * dt + a * d_ * dp * c_,
+                       Z * r == d_ * dr * r - c_ * dp]
+                chk.add(f"convert_derivative_from_spherical_to_cartesian/{case}/lemma/chain-rule-recovers-the-radial-derivative", idh,
+                        (c_ * b * X + c_ * a * Y + d_ * Z) * (r * c_) == dr * (r * c_), kind="lemma", func=fq, meta={"replay": rep})
+                chk.add(f"convert_derivative_from_spherical_to_cartesian/{case}/lemma/chain-rule-recovers-the-azimuthal-derivative", idh,
+                        (-r * c_ * a * X + r * c_ * b * Y) == dt, kind="lemma", func=fq, meta={"replay": rep})
+                chk.add(f"convert_derivative_from_spherical_to_cartesian/{case}/lemma/chain-rule-recovers-the-polar-derivative", idh,
+                        (r * d_ * b * X + r * d_ * a * Y - r * c_ * Z) * c_ == dp * c_, kind="lemma", func=fq, meta={"replay": rep})
+            elif case == "centre":
+                chk.add(f"convert_derivative_from_spherical_to_cartesian/{case}/post/only-the-radial-derivative-enters-at-r=0@{oi}", hy,
+                        z3.And(g[0] == ct * sp * dr, g[1] == st * sp * dr, g[2] == cp * dr), func=fq, meta={"replay": rep})
+            chk.canary(f"convert_derivative_from_spherical_to_cartesian/{case}", list(o.pc))
+
+
+def band_limit_cut(chk):
+    """radial_component_splines: projections, band-limit cut per shell (loop contract), one spline per harmonic over the radial nodes."""
+    eng = chk.eng
+    fq = f"{MOD}.AtomGrid.radial_component_splines"
+    BAS = z3.Function("basis_value", IS, IS, RS)          # (row, grid point)
+    RC = z3.Function("angular_projection", IS, IS, RS)    # (row, shell) as returned by integrate_angular_coordinates
+    L = (LH + 1) * (LH + 1)
+    rep = {"what": "splines"}
+    rec = {"harm": [], "int": [], "spl": []}
+
+    def cut(row, i):
+        row, i = T.zi(row), T.zi(i)
+        nz = (DEGS(i) / 2 + 1) * (DEGS(i) / 2 + 1)
+        return z3.If(z3.And(DEGS(i) != LMAXV, row >= nz), z3.RealVal(0), RC(row, i))
+
+    def thunk(eng_):
+        for v in rec.values():
+            del v[:]
+        _q = z3.Int("q_any")
+        eng_.assume(z3.And(S >= 1, NP >= 1, LMAXV >= 0, LH >= 0, 2 * LH <= LMAXV, LMAXV <= 2 * LH + 1, i0 >= 0, i0 < S, row0 >= 0, row0 < L))
+        eng_.assume(z3.ForAll([_q], z3.And(DEGS(_q) >= 0, DEGS(_q) <= LMAXV)))
+        g = atom_obj(eng_, None)
+        cc = eng_.callee_contracts
+        GS = z3.Function("grid_sph", IS, IS, RS)
+        cc[f"{MOD}.AtomGrid.l_max"] = lambda e, f, a, k: LMAXV
+        cc[f"{MOD}.AtomGrid.convert_cartesian_to_spherical"] = lambda e, f, a, k: I.Arr((NP, 3), lambda j, c: GS(T.zi(j), T.zi(c)), "real")
+
+        def harm(e, f, args, kwargs):
+            rec["harm"].append(list(args))
+            return I.Arr(((T.zi(args[0]) + 1) * (T.zi(args[0]) + 1), NP), lambda row, j: BAS(T.zi(row), T.zi(j)), "real")
+
+        def integ(e, f, args, kwargs):
+            rec["int"].append(list(args))
+            return I.Arr((L, S), lambda row, i: RC(T.zi(row), T.zi(i)), "real")
+
+        def spline(e, x=None, y=None, **kw):
+            rec["spl"].append((x, y))
+            return I.Opaque("spline", x=x, y=y)
+        cc["grid.utils.generate_real_spherical_harmonics"] = harm
+        cc[f"{MOD}.AtomGrid.integrate_angular_coordinates"] = integ
+        eng_.externals["scipy.interpolate.CubicSpline"] = spline
+
+        def inv(fr, kk):
+            rc = fr.load_name("radial_components")
+            return z3.And(z3.BoolVal(rc.ndim == 2), T.zi(rc.shape[0]) == L, T.zi(rc.shape[1]) == S,
+                          T.zr(rc.fn(row0, i0)) == z3.If(i0 < T.zi(kk), cut(row0, i0), RC(row0, i0)))
+
+        def havoc(fr, nm, old):
+            if nm == "radial_components":
+                k = spec.k
+                old.fn = lambda row, i, k=k: z3.If(T.zi(i) < k, cut(row, i), RC(T.zi(row), T.zi(i)))
+            return None
+        spec = I.LoopSpec(inv, havoc=havoc, name="shells", modifies=["radial_components"])
+        eng_.loop_specs[(fq, 1)] = spec
+        try:
+            out = eng_.call_method(g, "radial_component_splines", I.Arr((NP,), lambda j: FV(T.zi(j)), "real"))
+            sp0 = out.item(row0) if isinstance(out, LZ.SymList) else None          # lazily built: evaluate while the contracts are installed
+            return dict(out=out, sp0=sp0, rec={k: list(v) for k, v in rec.items()}, g=g, GS=GS)
+        finally:
+            for k in (f"{MOD}.AtomGrid.l_max", f"{MOD}.AtomGrid.convert_cartesian_to_spherical", "grid.utils.generate_real_spherical_harmonics",
+                      f"{MOD}.AtomGrid.integrate_angular_coordinates"):
+                cc.pop(k, None)
+            eng_.externals.pop("scipy.interpolate.CubicSpline", None)
+            eng_.loop_specs.pop((fq, 1), None)
+    nund = len(chk.undecided)
+    outs = chk.explore("radial_component_splines", thunk, func=fq)
+    if len(chk.undecided) == nund:
+        ok = any(o.kind == "return" for o in outs) and any(o.kind == "end" for o in outs) and not any(o.kind == "raise" for o in outs)
+        chk.add("radial_component_splines/paths/loop-exit-and-loop-step-explored-no-raise", [], z3.BoolVal(ok), func=fq,
+                meta={"replay": rep, "paths": str(sorted({(o.kind, o.note, o.exc) for o in outs}, key=str))})
+    for oi, o in enumerate(outs):
+        chk.add_from_path(f"radial_component_splines/path{oi}", o, func=fq, meta={"replay": rep})
+        if o.kind in ("return", "end"):
+            chk.canary("radial_component_splines", list(o.pc))
+        if o.kind != "return":
+            continue
+        v = o.value
+        hy = list(o.pc)
+        asm = list(o.assumptions)
+        r = v["rec"]
+        okc = len(r["harm"]) == 1 and len(r["int"]) == 1
+        gl = [z3.BoolVal(bool(okc))]
+        if okc:
+            gl.append(T.zi(r["harm"][0][0]) == LH)
+            gl.append(z3.And(T.zr(r["harm"][0][1].fn(i0)) == v["GS"](i0, 1), T.zr(r["harm"][0][2].fn(i0)) == v["GS"](i0, 2)))
+            vals = r["int"][0][-1]
+            jg = z3.Int("jg")
+            gl.append(z3.Implies(z3.And(jg >= 0, jg < NP), T.zr(vals.fn(row0, jg)) == BAS(row0, jg) * FV(jg)))
+        chk.add("radial_component_splines/post/projection-onto-the-harmonic-basis-up-to-half-the-largest-degree-at-the-grids-angles", hy, z3.And(*gl), func=fq,
+                meta={"replay": rep}, assumptions=asm)
+        out = v["out"]
+        oks = isinstance(out, LZ.SymList)
+        gl = [z3.BoolVal(bool(oks))]
+        if oks:
+            sp = v["sp0"]
+            good = isinstance(sp, I.Opaque) and sp.kind == "spline" and isinstance(sp.data.get("y"), I.Arr) and isinstance(sp.data.get("x"), I.Arr)
+            gl.append(z3.BoolVal(bool(good)))
+            if good:
+                gl += [T.zi(out.length) == L, T.zr(sp.data["x"].fn(i0)) == Rr(i0), T.zi(sp.data["y"].shape[0]) == S, T.zr(sp.data["y"].fn(i0)) == cut(row0, i0)]
+        chk.add("radial_component_splines/post/one-spline-per-harmonic-through-the-band-limited-projections-over-the-radial-nodes", hy, z3.And(*gl), func=fq,
+                meta={"replay": rep}, assumptions=asm)
+        chk.add("radial_component_splines/post/basis-kept-for-later-calls", [], z3.BoolVal(isinstance(v["g"].fields.get("_basis"), I.Arr)), func=fq, meta={"replay": rep})
+
+    def t_bad(eng_):
+        eng_.assume(z3.And(S >= 1, NP >= 1))
+        g = atom_obj(eng_, None)
+        return eng_.call_method(g, "radial_component_splines", I.Arr((NP + 1,), lambda j: FV(T.zi(j)), "real"))
+    outs = chk.explore("radial_component_splines/size-mismatch", t_bad, func=fq)
+    chk.add("radial_component_splines/raises/values-of-the-wrong-size", [], z3.BoolVal(bool(outs) and all(o.kind == "raise" and o.exc == "ValueError" for o in outs)),
+            func=fq, meta={"replay": rep})
+
+
+def angular_integration(chk):
+    """integrate_angular_coordinates for one function on a grid without a node at the origin: shell i gets the weighted sum over exactly its segment,
+    divided by r_i^2 w_i."""
+    eng = chk.eng
+    fq = f"{MOD}.AtomGrid.integrate_angular_coordinates"
+    rep = {"what": "angular"}
+
+    def thunk(eng_):
+        _q = z3.Int("q_any")
+        eng_.assume(z3.And(S >= 1, NP >= 1, i0 >= 0, i0 < S))
+        eng_.assume(z3.ForAll([_q], Rr(_q) >= T.from_float(1e-8)))          # no radial node at the origin (that branch: bounded layer)
+        eng_.assume(z3.ForAll([_q], z3.Implies(z3.And(_q >= 0, _q < S), z3.And(OFF(_q) >= 0, OFF(_q) <= OFF(_q + 1), OFF(_q + 1) <= NP))))
+        eng_.generic_indices = [i0]
+        # the loop over the nodes at the origin does not execute under the precondition (its step path is infeasible): trivial contract
+        eng_.loop_specs[(fq, 1)] = I.LoopSpec(lambda fr, kk: z3.BoolVal(True), modifies=[], name="origin-nodes")
+        try:
+            g = atom_obj(eng_, None)
+            out = eng_.call_method(g, "integrate_angular_coordinates", I.Arr((NP,), lambda j: FV(T.zi(j)), "real"))
+            return out
+        finally:
+            eng_.generic_indices = []
+            eng_.loop_specs.pop((fq, 1), None)
+    outs = chk.explore("integrate_angular_coordinates/one-function", thunk, func=fq)
+    rets = [o for o in outs if o.kind == "return"]
+    chk.add("integrate_angular_coordinates/one-function/post/returns-on-every-path", [], z3.BoolVal(bool(rets) and len(rets) == len(outs)), func=fq,
+            meta={"replay": rep, "paths": str([(o.kind, o.exc, o.note) for o in outs])})
+    ps = framework.PrefixSum("weighted_values", lambda j: FV(T.zi(j)) * WT(T.zi(j)))
+    for oi, o in enumerate(rets):
+        out = o.value
+        hy = list(o.pc)
+        asm = list(o.assumptions)
+        chk.add_from_path(f"integrate_angular_coordinates/one-function/path{oi}", o, func=fq, meta={"replay": rep})
+        term = T.zr(out.fn(i0))
+        eqs = [framework.match_sum(chk, "integrate_angular_coordinates/one-function/shell-sum", app, ps, OFF(i0), OFF(i0 + 1) - 1, hy, func=fq, meta={"replay": rep}, assumptions=asm)
+               for app in framework.find_sites(term)]
+        chk.add("integrate_angular_coordinates/one-function/post/shell-value-is-the-weighted-sum-over-its-segment-without-the-radial-factor", hy + eqs,
+                z3.And(z3.BoolVal(out.ndim == 1), T.zi(out.shape[0]) == S, term == (ps.P(OFF(i0 + 1)) - ps.P(OFF(i0))) / (Rr(i0) * Rr(i0) * Rw(i0))), func=fq,
+                meta={"replay": rep}, assumptions=asm)
+        chk.canary("integrate_angular_coordinates/one-function", hy)
 
 
 def build(chk):
-    return None
+    interpolant(chk)
+    jacobian(chk)
+    band_limit_cut(chk)
+    angular_integration(chk)
+
+
+def main(tier="quick", seed=0, bounded=True, proof=True):
+    chk = framework.Check("C09", tier, seed, level="proof")
+    chk.trusted += [
+        "floats are reals (no rounding)",
+        "contracts used inside the composition proof: CubicSpline objects (callable (r, nu) -> values), generate_real_spherical_harmonics and its derivative "
+        "routine (C08), convert_cart_to_sph (C08); their numerical content and the angular exactness of the shipped rules (C02) are not proved here",
+        "sin^2 + cos^2 = 1; finite-sum algebra of the reduction matcher",
+        "exact angular integrals, splines through the knots, reproduction at grid points, polynomial reproduction, molecular interpolation: bounded layer only; "
+        "recorded findings: gradient on the z-axis and at the centre",
+    ]
+    if proof:
+        build(chk)
+    return chk.finish(bounded_args=[] if bounded else None)
